@@ -100,6 +100,25 @@ inductive Reachable (joinOnDrop : Bool) (pl : Pid → Content) : State → Prop
   | step {s s' : State} (a : Act) : Reachable joinOnDrop pl s → next joinOnDrop pl s a = some s' →
       Reachable joinOnDrop pl s'
 
+def isWritingPC : PC → Bool
+  | .writing _ _ _ => true
+  | _ => false
+
+/-- the action drops the `tokio::fs::File` inside the write callback: the future is cancelled there, or the
+callback returns `Err` -/
+def dropsInCallback (s : State) : Act → Bool
+  | .base (.cancel p) => isWritingPC (s.base.pc p)
+  | .base (.fail p) => isWritingPC (s.base.pc p)
+  | _ => false
+
+/-- histories of the code as it is (`joinOnDrop = false`) in which no write is in flight whenever a callback
+is dropped or returns an error (e.g. the pool executes every write before the next event; a `DiskWrite`
+error always satisfies this: it is the in-flight write itself that reported it) -/
+inductive ReachableQD (pl : Pid → Content) : State → Prop
+  | init : ReachableQD pl State.init
+  | step {s s' : State} (a : Act) : ReachableQD pl s → (dropsInCallback s a = true → s.inflight = []) →
+      next false pl s a = some s' → ReachableQD pl s'
+
 def run (joinOnDrop : Bool) (pl : Pid → Content) (s : State) : List Act → Option State
   | [] => some s
   | a :: as =>
